@@ -25,7 +25,7 @@ RULE = ('precedence: for each of 12 keys (9 documented, 3 unknown) a seeded choi
         'or a prefix matched; distinct by canonical case')
 ASSUMPTIONS = ['prefix items are non-empty and contain no comma', 'equality of poll cadence is judged in logical terms '
                '(timer thread alive and >= 3 polls within a generous watchdog), not by wall-clock period']
-REQUIRE = {'two_start_sessions': 3, 'function_settings_read_twice': 4, 'precedence_reads': 400, 'behaviour_sessions': 20, 'classifications': 5000, 'prefix_matched': 1500,
+REQUIRE = {'two_start_sessions': 3, 'late_environment_reads': 30, 'function_settings_read_twice': 4, 'precedence_reads': 400, 'behaviour_sessions': 20, 'classifications': 5000, 'prefix_matched': 1500,
            'exclusion_won': 200, 'reclassified_snapshots': 40}
 SHARD_TIMEOUT = {'quick': 400, 'thorough': 2400}
 
@@ -33,7 +33,7 @@ DOCUMENTED = {   # key -> (module default when no env, kind)
     'SERVICE_URL': 'deep:43315', 'SERVICE_SECURE': 'True', 'LOGGING_CONF': None, 'POLL_TIMER': 10,
     'SERVICE_AUTH_PROVIDER': None, 'APP_ROOT': '', 'PLUGINS': [],
 }
-UNKNOWN = ['SERVICE_USERNAME', 'SERVICE_PASSWORD', 'MY_CUSTOM_KEY']
+UNKNOWN = ['SERVICE_USERNAME', 'SERVICE_PASSWORD', 'MY_CUSTOM_KEY', 'NO_TRACE']
 
 
 def plan(tier, seed):
@@ -77,7 +77,8 @@ def case_precedence(seed, out, spec):
                 expect[k] = ev if ev is not None else DOCUMENTED[k]
         else:
             expect[k] = ev
-    res = e2e.call_child('vf.props.c19', 'child_precedence', {'code': code, 'keys': keys}, env=env, timeout=60)
+    res = e2e.call_child('vf.props.c19', 'child_precedence', {'code': code, 'keys': keys, 'unknown': UNKNOWN}, env=env,
+                         timeout=60)
     replay = replay_spec(spec, seed)
     witness = {'env': env, 'code': code}
     if res.get('child_failed') or res.get('inconclusive'):
@@ -107,6 +108,17 @@ def case_precedence(seed, out, spec):
             out.count('function_settings_read_twice')
         if k in code and ('DEEP_' + k) in env:
             competed = True
+    for k in UNKNOWN:
+        if k in code:
+            continue
+        want = None if ('DEEP_' + k) in env else 'late-%s' % k.lower()
+        got = res['late'].get(k)
+        if got != want:
+            out.violation('precedence:environment-change-not-seen',
+                          'a configuration object made after DEEP_%s was %s resolves %s to %r, expected %r' % (
+                              k, 'removed' if want is None else 'set', k, got, want), witness, replay)
+            return
+        out.count('late_environment_reads')
     out.case({'env': env, 'code': code}, nontrivial=competed,
              sample={'env': env, 'code': {k: v for k, v in list(code.items())[:5]},
                      'resolved': {k: res['values'][k] for k in keys[:6]}})
@@ -164,7 +176,26 @@ def child_precedence(arg):
                 again[k] = getattr(cfg, k)
             except BaseException as e:  # noqa
                 again[k] = {'raised': repr(e)}
-    return {'values': values, 'again': again}
+    # later in the same process the environment has changed and another configuration object is made: keys without a
+    # default are looked up in the environment of that moment
+    import os
+    late = {}
+    for k in arg.get('unknown', []):
+        if k in arg['code']:
+            continue
+        if ('DEEP_' + k) in os.environ:
+            del os.environ['DEEP_' + k]
+        else:
+            os.environ['DEEP_' + k] = 'late-%s' % k.lower()
+    cfg2 = ConfigService(custom)
+    for k in arg.get('unknown', []):
+        if k in arg['code']:
+            continue
+        try:
+            late[k] = getattr(cfg2, k)
+        except BaseException as e:  # noqa
+            late[k] = {'raised': repr(e)}
+    return {'values': values, 'again': again, 'late': late}
 
 
 # ---------------------------------------------------------------- (b) behaviour
